@@ -8,6 +8,9 @@ structure DSt where
   stages : List (Stage Nat) := []
   names : List String := []          -- stage names (only `remove` looks at them: first stage with that name)
   made : Nat := 0                    -- number of stages ever created (identity used by the stub callbacks)
+  runs : Nat := 0                    -- `_runs_count`, `_successful_runs`, `_failed_runs` of get_statistics()
+  okRuns : Nat := 0
+  badRuns : Nat := 0
 
 def mkStage (i : Nat) (cp pr eh : String) (req : Bool) (amp : Rat) : Stage Nat :=
   { checkpoint :=
@@ -42,6 +45,15 @@ def showEv : Ev Nat → String
 def step (st : DSt) (toks : List String) : DSt × String :=
   match toks with
   | ["cfg", h, m] => ({ cfg := ⟨boolOf h, ratOf m⟩, stages := [], names := [], made := 0 }, "ok")
+  | ["mapk", h, m, a1, a2, a3] =>
+    -- the shipped MAPKCascade preset; signals are abstracted to the tier they carry (0 = raw input, k = dict of tier k)
+    let t1 : Stage Nat := ⟨none, fun _ => .ok 1, none, true, ratOf a1⟩
+    -- a raw (non-dict) signal reaching tier 2/3 makes `x.get(...)` raise AttributeError in gate and processor
+    let t2 : Stage Nat := ⟨some fun x => if x = 0 then .raise else .ok true,
+                           fun x => if x = 0 then .raise else .ok 2, none, true, ratOf a2⟩
+    let t3 : Stage Nat := ⟨some fun x => if x = 0 then .raise else .ok (x == 2),
+                           fun x => if x = 0 then .raise else .ok 3, none, true, ratOf a3⟩
+    ({ cfg := ⟨boolOf h, ratOf m⟩, stages := [t1, t2, t3], names := ["MAPKKK", "MAPKK", "MAPK"], made := 3 }, "ok")
   | ["stage", cp, pr, eh, req, amp] =>
     ({ st with stages := st.stages ++ [mkStage st.made cp pr eh (boolOf req) (ratOf amp)],
                names := st.names ++ [s!"s{st.made}"], made := st.made + 1 }, "ok")
@@ -59,10 +71,13 @@ def step (st : DSt) (toks : List String) : DSt × String :=
   | ["run", x] =>
     let r := result st.cfg st.stages (natD x)
     let fin := match r.final with | some v => s!"some:{v}" | none => "none"
-    (st, joinSp [showBool r.success, fin, toString r.completed, toString r.total, showRat r.amplification,
+    ({ st with runs := st.runs + 1, okRuns := st.okRuns + (if r.success then 1 else 0),
+               badRuns := st.badRuns + (if r.success then 0 else 1) },
+     joinSp [showBool r.success, fin, toString r.completed, toString r.total, showRat r.amplification,
       (match r.blockedAt with | some i => st.names.getD i "?" | none => "none"),
       showList (r.results.map fun x => s!"{x.idx}{showStatus x.status}:{showRat x.factor}"),
       showList (r.log.map showEv)])
+  | ["stats"] => (st, s!"{st.stages.length} {st.runs} {st.okRuns} {st.badRuns}")
   | _ => (st, "bad-op")
 
 def main : IO Unit := runDriver ({} : DSt) step
